@@ -278,7 +278,11 @@ def explore(d, env=None, lang="yaql", form=0, tok="task", rng=None, inputs=None)
                 c = r.clone()
                 c.rerun(req)
                 tree.add(node, c.steps[-1], ["probe_rerun", req])
-        if len(r.c.workflow_state.sequence) > env.get("max_records", 250) or len(r.acts) > 96:
+        ws_ = r.c.workflow_state
+        if (len(ws_.sequence) > env.get("max_records", 120) or len(r.acts) > 64 or len(ws_.routes) > 48
+                or sum(len(x) for x in ws_.routes) > 600
+                # (several transitions between the same pair of tasks inside a cycle multiply the context index lists)
+                or any(len(e["ctxs"]["in"]) > 150 for e in ws_.staged) or any(len(e["ctxs"]["in"]) > 150 for e in ws_.sequence[-8:])):
             # splits inside cycles multiply the executions without bound: such a history is cut (counted as truncated)
             tree.truncated = True
             continue
